@@ -100,7 +100,7 @@ Definition d_run_report (tbl : term) (q : profile) (units : list (string * strin
 Definition run_e2e (i : term) : term :=
   let tbl := gn i 5 in
   let q := d_fetched i in
-  TL (map (d_run_report tbl q (d_units_of (gn i 3))) (gl (gn i 4))).
+  TL (map (d_run_report tbl q (num_label_units q)) (gl (gn i 4))).
 
 Definition d_spec_report (tbl : term) (q : profile) (units : list (string * string)) (r o : term) : bool :=
   let rc := d_rc_of r in
@@ -121,7 +121,7 @@ Fixpoint d_forallb2 {A B} (f : A -> B -> bool) (a : list A) (b : list B) : bool 
 Definition spec_e2e (i o : term) : bool :=
   let tbl := gn i 5 in
   let q := d_fetched i in
-  d_forallb2 (d_spec_report tbl q (d_units_of (gn i 3))) (gl (gn i 4)) (gl o).
+  d_forallb2 (d_spec_report tbl q (num_label_units q)) (gl (gn i 4)) (gl o).
 
 Definition d_cls_report (tbl : term) (q : profile) (units : list (string * string)) (r : term) : list Z :=
   let rc := d_rc_of r in let c := rc_cfg rc in let M := tbl_M tbl in
@@ -139,7 +139,7 @@ Definition d_cls_report (tbl : term) (q : profile) (units : list (string * strin
 Definition cls_e2e (i : term) : list Z :=
   let tbl := gn i 5 in
   let q := d_fetched i in
-  nodup Z.eq_dec (flat_map (d_cls_report tbl q (d_units_of (gn i 3))) (gl (gn i 4))).
+  nodup Z.eq_dec (flat_map (d_cls_report tbl q (num_label_units q)) (gl (gn i 4))).
 
 (* comparison skipped for class 900 *)
 Definition eqv_e2e (i m o : term) : bool :=
